@@ -110,6 +110,28 @@ struct Runner {
 			     .s("kind", f.valid ? "valid" : "invalid").raw("want", f.want);
 			w.emit(out); fflush(out); return;
 		}
+		if (name == "stack") {   // the stacking constructor: o from the tables s1, s2 (, s1)
+			if (objs.count(o) && objs[o]) return;
+			int s1 = (int)op["s1"].integer(), s2 = (int)op["s2"].integer();
+			if (!objs.count(s1) || !objs[s1] || !objs.count(s2) || !objs[s2]) return;
+			int so = (int)op["so"].integer(); int led = next_ledger++;
+			std::vector<CTable*> src{objs[s1], objs[s2]}; if (op["three"].b) src.push_back(objs[s1]);
+			std::vector<double> coords; for (size_t i = 0; i < src.size(); i++) coords.push_back(1.5 * i + 0.25 * i * i);
+			bool good = true;
+			for (auto p : src) {
+				good = good && p->get_ndim() != 0 && p->get_ndim() == src[0]->get_ndim();
+				for (uint32_t d = 0; good && d < p->get_ndim(); d++) good = p->get_order(d) == src[0]->get_order(d) && p->get_nknots(d) == src[0]->get_nknots(d);
+			}
+			std::string srcpre = meta(*objs[s1]); long stray0 = AllocRegistry::get().ledgers[0].live_bytes;
+			Ctx c = begin("stack", o, armed); CTable* t = nullptr;
+			bool ok = guarded([&]() { t = new CTable(src, coords, so, CountingAlloc<void>(led)); });
+			bool fired = armed >= 0 && AllocRegistry::get().fail_at < 0; AllocRegistry::get().disarm();
+			if (ok) objs[o] = t;
+			JW w; w.s("op", "stack").i("o", o).b("ok", ok).i("armed", fired ? armed : -1).raw("pre", EMPTY_META).raw("post", ok ? meta(*t) : EMPTY_META)
+			     .i("live", AllocRegistry::get().ledgers[led].live_bytes).i("errs", errs_total() - c.errs0).s("tag", tag).s("kind", good ? "good" : "bad")
+			     .raw("src_pre", srcpre).raw("src_post", meta(*objs[s1])).i("nsrc", (long)src.size()).i("so", so).i("stray", AllocRegistry::get().ledgers[0].live_bytes - stray0);
+			w.emit(out); fflush(out); return;
+		}
 		if (!objs.count(o) || !objs[o]) return;
 		CTable* t = objs[o];
 		if (name == "read" || name == "readmem") {
@@ -149,6 +171,7 @@ struct Runner {
 		} else if (name == "permute") {
 			bool good = op["good"].b; std::vector<size_t> p(t->get_ndim()); for (size_t i = 0; i < p.size(); i++) p[i] = p.size() - 1 - i;
 			if (!good && !p.empty()) p[0] = p.size() + 3;
+			if (p.empty()) good = true;   // the empty permutation of an empty table is valid
 			Ctx c = begin("permute", o, -1); bool ok = guarded([&]() { t->permuteDimensions(p); });
 			end(c, ok, std::string("\"kind\":\"") + (good ? "good" : "bad") + "\"");
 		} else if (name == "write" || name == "writemem") {
